@@ -20,6 +20,7 @@ import (
 	"fmt"
 	"hash/fnv"
 	"os"
+	"strconv"
 	"strings"
 	"sync"
 	"sync/atomic"
@@ -206,7 +207,7 @@ func prepare(c *Case, reqs *[]string) *caseRun {
 }
 
 func (cr *caseRun) replayOf(fr *flavRun, extra map[string]any) map[string]any {
-	m := map[string]any{"v0": cr.a, "v1": cr.b, "ignores": cr.ig, "wseed": cr.c.WSeed, "stream": cr.c.Stream,
+	m := map[string]any{"v0": cr.a, "v1": cr.b, "ignores": cr.ig, "wseed": fmt.Sprint(cr.c.WSeed), "stream": cr.c.Stream,
 		"v0_json": jsonish(cr.c.A), "v1_json": jsonish(cr.c.B), "ignores_go": goPaths(cr.c.Ign)}
 	if fr != nil {
 		m["flavour"] = fr.fl
@@ -577,14 +578,14 @@ func runReplay() {
 		fmt.Fprintln(os.Stderr, "bad replay case:", e1, e2, e3)
 		os.Exit(3)
 	}
-	ws, _ := r.Replay["wseed"].(float64)
+	ws, _ := strconv.ParseUint(str("wseed"), 10, 64)
 	d, err := lib.StartDriver(*driver)
 	if err != nil {
 		fmt.Fprintln(os.Stderr, err)
 		os.Exit(3)
 	}
 	defer d.Close()
-	if err := processBatch(d, []*Case{{A: a, B: b, Ign: ign, Stream: "replay", WSeed: uint64(ws)}}); err != nil {
+	if err := processBatch(d, []*Case{{A: a, B: b, Ign: ign, Stream: "replay", WSeed: ws}}); err != nil {
 		fmt.Fprintln(os.Stderr, err)
 		os.Exit(3)
 	}
